@@ -5,6 +5,8 @@
 //        condition (or for-loop condition) inside func whose printed form contains `match`
 //   {"name":..., "kind":"order", "file":..., "func":..., "calls":[..]} order of first occurrence of
 //        the given call selectors inside func
+//   {"name":..., "kind":"seq",   "file":..., "func":..., "calls":[..]} every occurrence, in source
+//        order, of the given call selectors inside func
 //   {"name":..., "kind":"has",   "file":..., "func":..., "match":...}  whether func's printed body contains match
 // A request that cannot be resolved yields the value "<missing>" / -1 so the Lean expectation breaks.
 package main
@@ -242,6 +244,30 @@ func main() {
 								if (t == c || strings.HasSuffix(t, "."+c)) && !seen[c] {
 									seen[c] = true
 									seq = append(seq, c)
+								}
+							}
+						}
+						return true
+					})
+				}
+			}
+			q := make([]string, len(seq))
+			for i, s := range seq {
+				q[i] = leanStr(s)
+			}
+			fmt.Fprintf(&w, "def %s : List String := [%s]\n\n", r.Name, strings.Join(q, ", "))
+		case "seq":
+			// every occurrence, in source order, of the given call selectors inside func
+			var seq []string
+			if f != nil {
+				if fd := findFunc(f, r.Func); fd != nil && fd.Body != nil {
+					ast.Inspect(fd.Body, func(n ast.Node) bool {
+						if ce, ok := n.(*ast.CallExpr); ok {
+							t := show(ce.Fun)
+							for _, c := range r.Calls {
+								if t == c || strings.HasSuffix(t, "."+c) {
+									seq = append(seq, c)
+									break
 								}
 							}
 						}
